@@ -215,6 +215,17 @@ pub fn rand_style(rng: &mut Rng) -> Style {
             pf.set_background_color(rand_color(rng));
         }
     }
+    else if rng.chance(1, 8) {
+        // gradient fill (instead of a pattern fill)
+        let g = st.get_fill_mut().get_gradient_fill_mut();
+        g.set_degree(*rng.pick(&[0.0, 45.0, 90.0, 270.0]));
+        for pos in [0.0, 1.0] {
+            let mut stop = GradientStop::default();
+            stop.set_position(pos);
+            stop.set_color(rand_color(rng));
+            g.set_gradient_stop(stop);
+        }
+    }
     if rng.chance(1, 2) {
         let b = st.get_borders_mut();
         if rng.chance(1, 2) {
